@@ -1,5 +1,5 @@
 (* Extraction of the expression core (hash / eq / compare). *)
 From SE Require Import Expr.IO.
 Require Import ExtrOcamlBasic.
-Extraction "semodel.ml" N_of_digits Z_of_digits digits_of_N tc_lookup pool_hashes pool_eq pool_cmp
+Extraction "semodel.ml" N_of_digits Z_of_digits digits_of_N tc_lookup pool_hashes pool_eq pool_cmp pool_wf wf
   hash expr_eqb expr_cmp expr_keyless.
